@@ -16,6 +16,9 @@ RULE = ("seeded streams: segments / lines / polylines (0-7 vertices, open and cl
         "endpoints exactly on the plane, segments inside / parallel to the plane, axis-parallel segments with equal "
         "coordinates); extreme scales 2^-30..2^30 also in the quick tier; tiny features at unit-size positions (segments, "
         "polyline edges of length ~1e-9*scale across / beside / inside axis-normal planes, direction vectors ~1e-9*scale); "
+        "far_offset_exact: unit-size dyadic scenes 2^24..2^31 away from the origin (16-bit non-axis normals, endpoints "
+        "exactly on the plane; positions judged to 1e-9 of the scene plus 0.75..1.5 ulp per coordinate; the polyline routine, "
+        "which works through the plane equation, only relative to the coordinates); "
         "pairwise intersect_segment_with_plane with arbitrary grid normals; non-trivial = the calls "
         "returned; distinct by hash of inputs")
 TRUSTED = ["Coq 8.16.1 kernel, vm_compute for the correspondence evaluation",
@@ -276,6 +279,68 @@ def _scale(rng, tier):
     return 2.0 ** rng.randint(-10, 10)
 
 
+def _dyadic16_unit(rng):
+    """a normal in general position whose components are multiples of 2^-16 (16-17 significant bits) and whose length
+    is within 4e-7 of 1 (Plane accepts 1e-6); as Fractions"""
+    while True:
+        g = [rng.gauss(0, 1) for _ in range(3)]
+        l = sum(x * x for x in g) ** 0.5
+        a, b = round(g[0] / l * 65536), round(g[1] / l * 65536)
+        rest = 65536 ** 2 - a * a - b * b
+        if rest <= 0:
+            continue
+        cc = round(rest ** 0.5) * rng.choice([-1, 1])
+        n = [Fr(a, 65536), Fr(b, 65536), Fr(cc, 65536)]
+        if all(n) and abs(float(sum(x * x for x in n)) ** 0.5 - 1) < 4e-7:
+            return n
+
+
+def _far_case(rng):
+    """far_offset_exact: a unit-size scene on a dyadic grid translated 2^24..2^31 away from the origin. Every coordinate
+    is exactly representable; `point - reference` is exact in binary64 while `point . normal` is not (products need more
+    than 53 bits), so a formula that does not take differences first must round. Points exactly on the plane:
+    ref + i (b,-a,0) + j (0,c,-b); the others: such a point + (m/4) normal, signed distance (m/4)|n|^2."""
+    if rng.random() < 0.25:
+        n = [Fr(0), Fr(0), Fr(0)]
+        n[rng.randrange(3)] = Fr(rng.choice([-1, 1]))
+    else:
+        n = _dyadic16_unit(rng)
+    off = [Fr(rng.choice([-1, 1]) * 2 ** rng.randint(24, 31)) for _ in range(3)]
+    ref = [o + Fr(rng.randint(-16, 16), 8) for o in off]
+    a_, b_, c_ = n
+
+    def point(m=None):
+        i, j = rng.randint(-3, 3), rng.randint(-3, 3)
+        if m is None:
+            m = rng.choice([0, 0, -6, -3, -2, -1, 1, 2, 4, 5])
+        v = [ref[0] + i * b_ + Fr(m, 4) * a_, ref[1] - i * a_ + j * c_ + Fr(m, 4) * b_, ref[2] - j * b_ + Fr(m, 4) * c_]
+        assert all(Fr(float(x)) == x for x in v)
+        return [float(x) for x in v], m
+
+    base = {"exact": True, "far": True, "scale": 1.0, "ref": [float(x) for x in ref], "normal": [float(x) for x in n]}
+    u = rng.random()
+    if u < 0.5:
+        A, B = [], []
+        for _ in range(rng.choice([1, 2, 3, 5])):
+            (a, ma), (b, mb) = point(), point()
+            A.append(a)
+            B.append(b)
+        return dict(base, kind="segments_far_offset", a=A, b=B)
+    if u < 0.7:
+        pts, rays = [], []
+        for _ in range(rng.choice([1, 2, 4])):
+            (a, ma) = point()
+            (b, mb) = point(rng.choice([x for x in (-6, -3, -2, -1, 1, 2, 4, 5) if x != ma]) if rng.random() < 0.8 else ma)
+            pts.append(a)
+            rays.append([float(Fr(y) - Fr(x)) for x, y in zip(a, b)])     # crossing parameter ma/(ma-mb): |s| <= 6
+        return dict(base, kind="lines_far_offset", pts=pts, rays=rays)
+    # polyline: Polyline.intersect_plane takes signed distances through the plane equation (p.n - ref.n), which cancels
+    # far from the origin; its decisions are therefore compared away from the plane only and its points with the
+    # tolerance relative to the coordinates (not wrapped in CFar)
+    v = [point()[0] for _ in range(rng.choice([2, 3, 4, 6]))]
+    return dict(base, exact=False, far=False, kind="polyline_far_offset", v=v, closed=rng.random() < 0.5)
+
+
 def _int_case(rng):
     """whole-number data passed as int64 arrays (the plane's arrays, the stacks, or both): an axis-normal plane, and
     segments / rays / polylines / pairwise rows with crossing, same-side, on-plane, parallel and zero-length members"""
@@ -337,6 +402,9 @@ def gen_cases(rng, n, tier):
     for _ in range(n):
         if rng.random() < 0.12:
             cases.append(_int_case(rng))
+            continue
+        if rng.random() < 0.12:
+            cases.append(_far_case(rng))
             continue
         u = rng.random()
         scale = _scale(rng, tier)
@@ -496,6 +564,13 @@ def _rows(rs):
 
 
 def coq_case(c, o):
+    t = _coq_case(c, o)
+    if c.get("far") and not (isinstance(o, dict) and "raise" in o):
+        return "CFar %s (%s)" % (q(_ptol(c)), t)     # positions compared with the absolute far-offset tolerance
+    return t
+
+
+def _coq_case(c, o):
     if isinstance(o, dict) and "raise" in o:
         # no call of this property's generators is expected to raise: make the case fail in Coq
         return "CIsp [] [] [] [] [[FNan]] []"
@@ -534,7 +609,16 @@ def _near(row, x, mag):
     """observed row (floats) within 1e-8 * magnitude of the exact point x"""
     if row is None or len(row) != 3 or any(e != e or e in (float("inf"), float("-inf")) for e in row):
         return False
+    if isinstance(mag, tuple):      # ("abs", tolerance): far-offset cases are judged feature-relative, see _ptol
+        return all(abs(Fr(float(e)) - y) <= mag[1] + Fr(3, 4) * max(abs(Fr(float(e))), abs(y)) / 2 ** 51 for e, y in zip(row, x))
     return all(abs(Fr(float(e)) - y) <= Fr(1, 10 ** 8) * max(mag, abs(y)) for e, y in zip(row, x))
+
+
+def _ptol(c):
+    """feature-relative part of the position tolerance of a far-offset case: 1e-9 of the scene size (8). Each coordinate
+    additionally gets 3/4 * 2^-51 of its own magnitude, i.e. 0.75..1.5 ulp (a correctly computed position carries half
+    an ulp from its last addition); see close_abs in the K file"""
+    return Fr(8, 10 ** 9)
 
 
 def _expect_segment(da, db, a, b, decided, exact):
@@ -595,7 +679,7 @@ def oracle(c, o):
             a, b = _F(c["a"][i]), _F(c["b"][i])
             da, db = sd(a), sd(b)
             decided = exact or (abs(da) > band and abs(db) > band)
-            mag = max([scale] + [abs(x) for x in a + b + ref])
+            mag = ("abs", _ptol(c)) if c.get("far") else max([scale] + [abs(x) for x in a + b + ref])
             want = _expect_segment(da, db, a, b, decided, exact)
             single, srow, sval = o["single"][i], o["st_rows"][i], o["st_valid"][i]
             if decided:
@@ -638,7 +722,7 @@ def oracle(c, o):
             if not (exact or abs(den) > Fr(1, 10 ** 12) * max(abs(x) for x in ray)):
                 continue
             single, srow, sval = o["single"][i], o["st_rows"][i], o["st_valid"][i]
-            mag = max([scale] + [abs(x) for x in pt + ray + ref])
+            mag = ("abs", _ptol(c)) if c.get("far") else max([scale] + [abs(x) for x in pt + ray + ref])
             if den == 0:
                 if single is not None or sval or not _is_nan_row(srow):
                     return "line %d is parallel to the plane but %r / %r valid=%r returned" % (i, single, srow, sval)
